@@ -161,6 +161,14 @@ def _model_case(case):
     # (circular PCC landscapes cannot represent shifts beyond box/2: boxes below 2*(M+2)+2 are skipped)
     if p["pair"] == "displaced" and p["mask"] == "none" and min(shape) >= 6:
         M = (2.0, 2.0, 2.0) if not small else (1.0, 1.0, 1.0)
+        if rng.random() < 0.35:
+            # anisotropic ranges with components of zero width (search in a plane or along a line)
+            zero = rng.random(3) < 0.5
+            if zero.all() or not zero.any():
+                zero = np.array([True, False, False])[rng.permutation(3)]
+            M_full = M
+            M = tuple(0.0 if z else m for z, m in zip(zero, M))
+            case.count("argmax_law_zero_width_axes")
         # ZNCC landscapes do not depend on a constant background or a positive gain of the sub-volume
         bg = float(rng.choice([5.0, 40.0])) * float(tmpl.max())
         gn = float(rng.choice([0.01, 1.0, 30.0]))
@@ -176,6 +184,10 @@ def _model_case(case):
         for name in ("ZNCC", "NCC", "PCC", "FSC"):
             if name != "ZNCC":
                 img = img_plain
+            if name == "FSC" and 0.0 in M:
+                # with the true displacement excluded from the range the mean shell correlation has no distinct
+                # maximum (seed 2: two plateaus 0.8 px apart): the law is judged on the full range for FSC
+                M = M_full
             up = int(rng.choice([1, 2, 5])) if name != "FSC" else int(rng.choice([1, 2]))
             al = models[name].align(img, M, quat, pos)
             lds = np.asarray(models[name].landscape(img, M, quat, pos, upsample=up))
@@ -190,7 +202,17 @@ def _model_case(case):
             # alignment refines within +-1 sample of the integer peak; the up-sampled landscape is a
             # spline interpolation of the same integer samples
             tol = 1.0 / up + 0.1
-            case.check(dist <= tol, f"{name}: landscape maximum is not at the displacement alignment reports", None,
+            mech = None
+            if dist > tol and dist <= 1.0 and name in ("FSC", "PCC") and up > 1 and all(float(m).is_integer() for m in M):
+                # open finding: an up-sampled landscape is a global cubic spline through the integer-shift samples,
+                # while align refines by other means (FSC: local spline around the best integer sample; PCC: Fourier
+                # up-sampling).  On small boxes with a wedge the two disagree by more than a sample.  Signature: the
+                # best *integer node* of the same landscape is the sample align's result belongs to.
+                nodes = lds[::up, ::up, ::up]
+                s_int = np.array(np.unravel_index(int(np.argmax(nodes)), nodes.shape), float) - np.asarray(M, float)
+                if float(np.abs(s_int - np.asarray(al.shift, float)).max()) <= 0.75 + (0.25 if name == "FSC" else 0.0):
+                    mech = "landscape.spline-upsampling-vs-align"
+            case.check(dist <= tol, f"{name}: landscape maximum is not at the displacement alignment reports", mech,
                        argmax=sh, align=al.shift, upsample=up, d=d, shape=shape, tilt=p["tilt"])
 
 
@@ -215,6 +237,26 @@ def _multi_landscape(case, rng, shape, tmpl, img, quat, pos, kw):
             case.check(e <= 2e-3, "candidate row of a multi-template landscape differs from the single-template "
                        "landscape", None, upsample=up, candidate=j, diff=e, shape=shape)
         rot = Rotation.from_rotvec([[0, 0, 0], [0.0, 0.0, 0.5]])
+        if up == 1 and min(shape) >= 12:
+            # a mask that is not invariant under the searched rotations: every candidate is scored with its own
+            # rotated mask, in the landscape exactly as in align
+            zz = np.indices(shape) - ((np.asarray(shape) - 1) / 2)[:, None, None, None]
+            amask = (1 / (1 + np.exp((np.sqrt((zz[0] / 1.0) ** 2 + (zz[1] / 1.6) ** 2 + (zz[2] / 0.7) ** 2)
+                                      - (min(shape) / 2 - 3.0)) / 0.8))).astype(np.float32)
+            rot2 = Rotation.from_rotvec([[0, 0, 0], [np.pi / 2, 0.0, 0.0], [0.0, 0.0, np.pi / 2]])
+            ma = Model(tmpl, amask, rotations=rot2, **kw)
+            la = np.asarray(ma.landscape(img, M, quat, pos, upsample=1))
+            for kk in range(3):
+                # reference for slab kk: a model that searches only rotation kk
+                one = Model(tmpl, amask, rotations=Rotation.from_quat(rot2[kk].as_quat()[None]), **kw)
+                l1 = np.asarray(one.landscape(img, M, quat, pos, upsample=1))
+                l1 = l1[0] if l1.ndim == 4 else l1
+                e = float(np.abs(la[kk] - l1).max()) if la.ndim == 4 and la[kk].shape == l1.shape else np.inf
+                case.maxobs("max_rotation_masked_landscape_diff", e if np.isfinite(e) else 9.9)
+                # (slab 0: in a multi-rotation model even the identity candidate's mask goes through the un-prefiltered
+                #  spline resampling, in a one-member identity model it does not: smoothing of the soft edge, <= 0.03)
+                case.check(e <= (5e-3 if kk else 0.03), "candidate slab of a rotation landscape with a rotation-variant mask differs from the "
+                           "landscape of a model that searches that rotation alone", None, candidate=kk, diff=e, shape=shape)
         mr = Model(tmpl, None, rotations=rot, **kw)
         lr = np.asarray(mr.landscape(img, M, quat, pos, upsample=up))
         ls = np.asarray(Model(tmpl, None, **kw).landscape(img, M, quat, pos, upsample=up))
